@@ -292,7 +292,8 @@ def run(rep, model):
         n += 1
         rel, line = _where(model, name.replace('expr:', ''))
         try:
-            r = evaluate(model, b)
+            from ..core import with_budget
+            r = with_budget(lambda: evaluate(model, b))
         except (Undecided, Fork) as e:
             rep.undecided('R8', name, str(e), rel)
             continue
